@@ -170,7 +170,10 @@ def strategy_(draw, tier):
     if draw(st.integers(0, 2)) == 0:
         # counters at the edges of the hash tables (64 buckets for file ids) as well as arbitrary ones
         warm = draw(st.sampled_from([62, 63, 64, 126, 127, 128, 255])) if draw(st.booleans()) else draw(st.integers(1, 140))
-    return {"steps": steps, "warmup": warm}
+    # every handle released => the file closes: an image moved to an external file before / after its data were
+    # written / read (the library's own access element on the image data must be released with the image id)
+    grext = draw(st.sampled_from([None, None, None, 0, 1, 2, 3]))
+    return {"steps": steps, "warmup": warm, "grext": grext}
 
 
 def strategy(tier):
@@ -444,6 +447,38 @@ def run_case(case):
         for o in reversed(objs):
             if o.get("orphan") and o["kind"] in ("fid", "sd"):
                 p.call("i", RELEASE[o["kind"]], V(o["var"]))   # retry closes that were refused earlier
+        gx = case.get("grext")
+        if gx is not None:
+            labels.add("gr_external_release")
+            img = bytes((7 * i + gx) & 0xff for i in range(60))
+            checks.append((p.call("i", "Hopen", "gx.hdf", 7, 0, bind="gxf"), "opened", "fid"))
+            checks.append((p.call("i", "GRstart", V("gxf"), bind="gxg"), "opened", "gr"))
+            checks.append((p.call("i", "GRcreate", V("gxg"), "gximg", 3, 21, 0, i32s(5, 4), bind="gxr"), "opened", "ri"))
+            if gx == 0:
+                checks.append((p.call("i", "GRsetexternalfile", V("gxr"), "gx.dat", 0), "ret0", "GRsetexternalfile"))
+            checks.append((p.call("i", "GRwriteimage", V("gxr"), i32s(0, 0), None, i32s(5, 4), img), "ret0", "GRwriteimage"))
+            if gx == 3:
+                # a second session: the image data are read first, then moved
+                checks.append((p.call("i", "GRendaccess", V("gxr")), "ret0", "GRendaccess"))
+                checks.append((p.call("i", "GRend", V("gxg")), "ret0", "GRend"))
+                checks.append((p.call("i", "Hclose", V("gxf")), "ret0", "Hclose"))
+                checks.append((p.call("i", "Hopen", "gx.hdf", 3, 0, bind="gxf"), "opened", "fid"))
+                checks.append((p.call("i", "GRstart", V("gxf"), bind="gxg"), "opened", "gr"))
+                checks.append((p.call("i", "GRselect", V("gxg"), 0, bind="gxr"), "opened", "ri"))
+            if gx >= 2:
+                checks.append((p.call("i", "GRreadimage", V("gxr"), i32s(0, 0), None, i32s(5, 4), Out(60)), "bytes", img))
+            if gx >= 1:
+                checks.append((p.call("i", "GRsetexternalfile", V("gxr"), "gx.dat", 0), "ret0", "GRsetexternalfile"))
+            checks.append((p.call("i", "GRendaccess", V("gxr")), "ret0", "GRendaccess"))
+            checks.append((p.call("i", "GRend", V("gxg")), "ret0", "GRend"))
+            checks.append((p.call("i", "Hclose", V("gxf")), "ret0", "Hclose after every identifier of the file was released"))
+            checks.append((p.call("i", "Hopen", "gx.hdf", 1, 0, bind="gxf"), "opened", "fid"))
+            checks.append((p.call("i", "GRstart", V("gxf"), bind="gxg"), "opened", "gr"))
+            checks.append((p.call("i", "GRselect", V("gxg"), 0, bind="gxr"), "opened", "ri"))
+            checks.append((p.call("i", "GRreadimage", V("gxr"), i32s(0, 0), None, i32s(5, 4), Out(60)), "bytes", img))
+            checks.append((p.call("i", "GRendaccess", V("gxr")), "ret0", "GRendaccess"))
+            checks.append((p.call("i", "GRend", V("gxg")), "ret0", "GRend"))
+            checks.append((p.call("i", "Hclose", V("gxf")), "ret0", "Hclose"))
         base = len(p.lines)
         rdr = wl.combo_reader("")
         for l in rdr.lines:
@@ -470,6 +505,9 @@ def run_case(case):
                 elif ck == "retn":
                     if r.ret != pay[0]:
                         fail = dict(kind="%s failed" % pay[1], call=call, ret=r.ret)
+                elif ck == "bytes":
+                    if r.ret != 0 or r.bufs[0] != pay:
+                        fail = dict(kind="an image moved to an external file reads back other bytes", call=call, ret=r.ret)
                 elif ck == "shared":
                     if r.ret != 11 or r.bufs[0][:11] != b"shared view":
                         fail = dict(kind="an element stored through one open of a path is not visible through another "
